@@ -23,6 +23,7 @@ import (
 	"github.com/nspcc-dev/neo-go/pkg/config/netmode"
 	"github.com/nspcc-dev/neo-go/pkg/core"
 	"github.com/nspcc-dev/neo-go/pkg/core/dao"
+	"github.com/nspcc-dev/neo-go/pkg/core/native"
 	"github.com/nspcc-dev/neo-go/pkg/core/native/nativenames"
 	"github.com/nspcc-dev/neo-go/pkg/core/state"
 	"github.com/nspcc-dev/neo-go/pkg/core/storage"
@@ -446,7 +447,29 @@ func (w *World) Freeze() {
 	w.H = w.BC.BlockHeight() + 1
 	w.TS = tb.Timestamp + 1000
 	w.frozen = true
+	// dual-world mode (C15): the deployed contract keeps its hash, id and storage but runs
+	// another executable (the shipped one), so that states of both worlds are comparable
+	for name, c := range ScriptOverride {
+		d, ok := w.Contracts[name]
+		if !ok {
+			continue
+		}
+		cs := w.BC.GetContractState(d.Hash)
+		if cs == nil {
+			hpanic("override: contract %s not found", name)
+		}
+		cp := *cs
+		cp.NEF = *c.NEF
+		cp.Manifest = *c.Manifest
+		cp.UpdateCounter++
+		if err := native.PutContractState(w.Root, &cp); err != nil {
+			hpanic("override %s: %v", name, err)
+		}
+	}
 }
+
+// ScriptOverride maps contract names to executables that replace the deployed ones at Freeze.
+var ScriptOverride = map[string]*Compiled{}
 
 // Track adds the GAS (and optionally NEO) balance of h to the canonical state.
 func (w *World) Track(tag string, h util.Uint160, neo bool) {
